@@ -94,8 +94,15 @@ func returnedClosure(fn *ssa.Function) *ssa.Function {
 	for _, b := range fn.Blocks {
 		for _, in := range b.Instrs {
 			if r, ok := in.(*ssa.Return); ok && len(r.Results) == 1 {
-				if mc, ok := r.Results[0].(*ssa.MakeClosure); ok {
+				v := r.Results[0]
+				if ct, ok := v.(*ssa.ChangeType); ok {
+					v = ct.X
+				}
+				if mc, ok := v.(*ssa.MakeClosure); ok {
 					return mc.Fn.(*ssa.Function)
+				}
+				if f, ok := v.(*ssa.Function); ok {
+					return f
 				}
 			}
 		}
